@@ -131,6 +131,19 @@ def py_traces(ctx, coders):
         ctx.require("trace_steps_with_words_held_back")
 
 
+def py_diff(ctx):
+    """Differential binding of the two front ends for the model classes the specification does not predict (float arithmetic):
+    messages with QuantizedGaussian / Laplace / Cauchy, Binomial, Bernoulli and Categorical (perfect, fast, lazy; f64 and f32 tables)
+    models in the concrete and the model-family call forms are encoded and decoded through the Python API and re-encoded through
+    the Rust API (`vh pydiff`): identical words, identical symbols.  (The Rust models themselves are tied to the specification's
+    contract by the VM records of C03/C05, the Rust coders by R1/V1/V3.)"""
+    trace = ctx.pydrive("diff", 1200 if ctx.tier == "thorough" else 300)
+    if trace:
+        ctx.vh("pydiff", infile=trace)
+        for c in ("pydiff_gaussian", "pydiff_cauchy", "pydiff_binomial", "pydiff_bernoulli", "pydiff_categorical", "py_diff_gaussian_family", "py_diff_categorical_family"):
+            ctx.require(c)
+
+
 def big_equiv(ctx):
     """The limb-arithmetic specifications used for exact validation at the real widths (Big, BigAns, BigRange) are tied to the
     primary specifications: TLC checks exhaustively at small widths, with limbs of 1-3 bits so that every number spans several
@@ -160,6 +173,7 @@ def big_equiv(ctx):
 def c06(ctx):
     big_equiv(ctx)
     py_traces(ctx, ["ans", "range"])
+    py_diff(ctx)
     ans_traces(ctx, exact=True, abstract=False)
     range_traces(ctx, exact=True)
     range_steered(ctx, exact=True)
@@ -493,6 +507,7 @@ def c03(ctx):
 
 @prop("C05")
 def c05(ctx):
+    py_diff(ctx)          # concrete vs. family call forms, lazy vs. eager, f32 vs. f64 tables through both front ends: same words
     model_traces(ctx)
     model_cases(ctx, "fixed", "c05", fixed_cfgs(ctx))
     model_cases(ctx, "uniform", "c05", uniform_cfgs(ctx))
